@@ -65,6 +65,30 @@ func act(id string, args ...interface{}) error {
 		if m := os.Getenv("VERIF_MSG"); m != "" {
 			msg = m // every failure of this run carries the same message text
 		}
+		noText := false
+		switch os.Getenv("VERIF_TEXT") { // ... or a text of a special form
+		case "empty":
+			msg, noText = "", true
+		case "blank":
+			msg = " "
+		case "newline":
+			msg = "\n"
+		case "newlines":
+			msg = "\n\n\n"
+		case "big":
+			msg = strings.Repeat("0123456789abcde\n", 4096) // 64 KiB
+		case "percent":
+			msg = "100%s done %d%% %!v %"
+		case "nul":
+			msg = "a\x00b"
+		}
+		if noText && (parts[0] == "fatal" || parts[0] == "panic-fatal") {
+			// the usual way to pass on a tool's status when the tool printed its own diagnostics: no text at all
+			if parts[0] == "fatal" {
+				return mg.Fatal(code)
+			}
+			panic(mg.Fatal(code))
+		}
 		switch parts[0] {
 		case "error":
 			return mkErr(parts[1:], msg)
@@ -338,7 +362,59 @@ def nest_project(name):
     return files
 
 
+PLAT_PROJECT = {      # compiles for amd64 only: the helper lives in a file that go/build selects by its name
+    "mf.go": "//go:build mage\n\npackage main\n\nimport \"fmt\"\n\n// T1 needs the helper.\nfunc T1() { fmt.Println(\"CALL T1\", platHelper()) }\n",
+    "plat_amd64.go": "//go:build mage\n\npackage main\n\nfunc platHelper() string { return \"amd64\" }\n",
+}
+
+
+def named_platforms(args):
+    """the platforms a -compile command line names: the values of -goos / -goarch (the last occurrence of a repeated flag,
+    as the flag package reads it), each split at commas, blanks trimmed, empty elements dropped; default: this host"""
+    vals = {"goos": None, "goarch": None}
+    i = 0
+    while i < len(args):
+        a = args[i].lstrip("-") if args[i].startswith("-") else None
+        if a is not None:
+            name, eq, v = a.partition("=")
+            if name in vals:
+                if eq:
+                    vals[name] = v
+                elif i + 1 < len(args):
+                    vals[name] = args[i + 1]
+                    i += 1
+        i += 1
+    def lst(v, dflt):
+        xs = [x.strip() for x in (v or "").split(",") if x.strip()]
+        return xs or [dflt]
+    return sorted(set("%s/%s" % (o, a) for o in lst(vals["goos"], "linux") for a in lst(vals["goarch"], "amd64")))
+
+
+def file_platform(path):
+    """goos/goarch of an executable file (ELF: linux; PE: windows), None if it is not one"""
+    try:
+        b = open(path, "rb").read(0x200)
+    except OSError:
+        return None
+    if b[:4] == b"\x7fELF" and len(b) > 20:
+        m = int.from_bytes(b[18:20], "little")
+        return "linux/" + {62: "amd64", 183: "arm64", 3: "386", 40: "arm"}.get(m, "machine%d" % m)
+    if b[:2] == b"MZ" and len(b) > 0x40:
+        off = int.from_bytes(b[0x3c:0x40], "little")
+        try:
+            with open(path, "rb") as fh:
+                fh.seek(off)
+                pe = fh.read(6)
+        except OSError:
+            return None
+        if pe[:4] == b"PE\0\0":
+            m = int.from_bytes(pe[4:6], "little")
+            return "windows/" + {0x8664: "amd64", 0xaa64: "arm64", 0x14c: "386"}.get(m, "machine%x" % m)
+    return None
+
+
 PROJECTS = {
+    "plat": PLAT_PROJECT,
     "nest": nest_project,
     "hist": hist_project,
     "main": {"mf.go": MAGEFILE},
@@ -621,6 +697,7 @@ def scen(fa=None, bd=None, start=True, pr=None, init_err=False, clean_err=False,
 SAMPLE_CODES = [1, 2, 3, 5, 7, 37, 64, 99, 100, 125, 126, 127, 128, 129, 130, 137, 143, 200, 250, 254, 255]
 CODE_KINDS = ["fatal", "fatalf", "panic-fatal", "osexit", "sh", "sh-dep", "deps-equal", "deps-diff", "deps-sametext-equal", "deps-sametext-diff"]
 SAME_TEXT = "step failed"
+TEXT_KINDS = ["empty", "blank", "newline", "newlines", "big", "percent", "nul"]     # VERIF_TEXT: the text of every failure of the run
 KILL_SIGNALS = [9, 15, 1]          # SIGKILL, SIGTERM, SIGHUP: the Go runtime dies from them
 PLAIN_KINDS = ["error", "panic-error", "panic-string", "panic-int", "shnotran", "shsig", "shcopy"]
 LEAF_DEPS = ["d1", "d2", "d3", "d4", "d5", "d6"]
@@ -842,7 +919,7 @@ def gen_line(rng, kind, c, npos=None, shspec=None, word=None):
                 gen_failure(rng, fid, rng.choice(["fatal", "error", "osexit"]), other_code(rng, c or 1), behs)
         mentions.append(m)
         words += w
-    return {"kind": "line", "fail": kind, "code": c, "pos": pos, "msg": (SAME_TEXT if kind.startswith("deps-sametext") or (kind in ("deps-diff", "deps-equal", "deps-nested") and rng.random() < 0.25) else None), "nmentions": len(mentions), "mentions": mentions, "behs": {k: list(v) for k, v in behs.items()}, "words": words}
+    return {"kind": "line", "fail": kind, "code": c, "pos": pos, "text": None, "msg": (SAME_TEXT if kind.startswith("deps-sametext") or (kind in ("deps-diff", "deps-equal", "deps-nested") and rng.random() < 0.25) else None), "nmentions": len(mentions), "mentions": mentions, "behs": {k: list(v) for k, v in behs.items()}, "words": words}
 
 
 def line_cases(ctx):
@@ -875,6 +952,16 @@ def line_cases(ctx):
             l = gen_line(rng, kind, 1, shspec=sp)
             l["routes"] = "all"
             lines.append(l)
+    # the TEXT of the failure as a dimension: empty, blank, newlines only, 64 KiB, with % verbs, with a NUL - for returned
+    # and panicked errors / mg.Fatal / non-error panics, in a target, in (parallel / serial / nested / mixed) dependency sets
+    for text in TEXT_KINDS:
+        for kind in ("fatal", "fatalf", "panic-fatal", "error", "panic-error", "panic-string", "deps-equal", "deps-equal", "deps-diff", "deps-diff", "deps-nested", "plain-dep"):
+            l = gen_line(rng, kind, rng.choice([7, 3, 128, 255, 1, 2]))
+            l["text"], l["msg"] = text, None
+            lines.append(l)
+    for l in lines:
+        if l.get("text") is None and not l.get("msg") and l["fail"] not in ("none", "unknown", "missing", "badarg") and rng.random() < 0.12:
+            l["text"] = rng.choice(TEXT_KINDS)
     # error value shapes: as a target's result, as a dependency's result (alone / next to an mg.Fatal(3)), returned or
     # as an error-valued panic
     for shape in ALL_SHAPES:
@@ -917,6 +1004,8 @@ def line_to_cases(ctx, l, idx):
     for m in l["mentions"]:
         ments.append(["run", abs_body(m["id"], behs)] if m["kind"] == "run" else [m["kind"]])
     want = oracle_line(l["mentions"], behs, l.get("msg"))
+    if l.get("text") and want[2] is not None and want[0] != 0:
+        want = (want[0], want[1], [t for t in want[2] if not t.startswith("FAIL-")])      # the text is not FAIL-<id>: only "something on stderr"
     decided = oracle_decides(behs)
     out = []
     killed = want[0] == "nonzero"
@@ -928,7 +1017,7 @@ def line_to_cases(ctx, l, idx):
         routes = ["mage", "hash"]       # a -compile'd binary killed by a signal has no exit status to look at
     for r in routes:
         c = dict(l)
-        c.update(route=r, proj="main", args=list(l["words"]), env=({"VERIF_MSG": l["msg"]} if l.get("msg") else {}), want=({"exit": want[0], "ran": want[1], "tokens": want[2]} if decided else None),
+        c.update(route=r, proj="main", args=list(l["words"]), env=({"VERIF_MSG": l["msg"]} if l.get("msg") else ({"VERIF_TEXT": l["text"]} if l.get("text") else {})), want=({"exit": want[0], "ran": want[1], "tokens": want[2]} if decided else None),
                  scen=scen(fa=fargs(nargs=len(l["words"]), hashfast=(r == "hash")), pr=prog(mentions=ments), child=("signaled" if killed else None)), line=idx)
         out.append(c)
     return out
@@ -1079,6 +1168,30 @@ def table_cases(ctx):
     # --- -compile
     add("-compile out", "main", "mage", ["-compile", "../compiled-out"], 0, scen(fa=fargs(compile=True)), special="compile-out")
     add("-compile -goos", "main", "mage", ["-goos", "linux", "-compile", "../compiled-out2"], 0, scen(fa=fargs(compile=True, goosarch=True)), special="compile-out")
+    # --- -compile and the platforms the command line names.  The sentence: 0 only if it compiled successfully - so status 0 =>
+    #     for every named platform an executable for it was written next to the path given; a build failure on stderr =>
+    #     status not 0.  (Whether a comma list is accepted or rejected is mage's business: both are fine.)
+    pn = 0
+    def plat(name, proj, args):
+        nonlocal pn
+        pn += 1
+        full = args + ["-compile", "../plat-out-%d/bin" % pn]
+        add(name, proj, "mage", full, None, scen(fa=fargs(compile=True, goosarch=any(a.startswith(("-goos", "-goarch")) for a in args))),
+            special="platforms", slot="p%d" % pn, tokens=[])
+        cs[-1]["want"]["platforms"] = named_platforms(full)
+    plat("-compile for the host platform", "plat", [])
+    plat("-compile -goarch amd64", "plat", ["-goarch", "amd64"])
+    plat("-compile -goos=linux -goarch=amd64", "plat", ["-goos=linux", "-goarch=amd64"])
+    plat("-compile for a platform the magefile does not compile for", "plat", ["-goarch", "arm64"])
+    plat("-compile, buildable then unbuildable platform in one value", "plat", ["-goarch", "amd64,arm64"])
+    plat("-compile, unbuildable then buildable platform in one value", "plat", ["-goarch", "arm64,amd64"])
+    plat("-compile, unbuildable then buildable platform, -goos given too", "plat", ["-goos", "linux", "-goarch", "arm64,amd64"])
+    plat("-compile, repeated -goarch flags (unbuildable, buildable)", "plat", ["-goarch", "arm64", "-goarch", "amd64"])
+    plat("-compile, repeated -goarch flags (buildable, unbuildable)", "plat", ["-goarch", "amd64", "-goarch", "arm64"])
+    plat("-compile, a list with blanks and an empty element", "plat", ["-goarch", " amd64 , ,amd64"])
+    plat("-compile, the same platform twice", "main", ["-goos", "linux,linux"])
+    plat("-compile, a list with an unknown platform first", "main", ["-goos", "nosuchos,linux"])
+    plat("-compile, a list with an unknown platform last", "main", ["-goos", "linux,nosuchos"])
     # --- the compiled binary's own command line
     cb = lambda **k: scen(pr=prog(**k))
     add("binary: undefined flag", "main", "compiled", ["-bogus"], 2, cb(flags="bad"), tokens=["bogus"])
@@ -1255,6 +1368,8 @@ def exec_case(slot, c):
                 os.remove(p)
             if chattr("+i", slot.dir):
                 locked.append(slot.dir)
+        if special == "platforms":
+            os.makedirs(os.path.normpath(os.path.join(slot.dir, os.path.dirname(c["args"][-1]))), exist_ok=True)
         if special == "compile-immutable":
             d = os.path.normpath(os.path.join(slot.dir, os.path.dirname(c["args"][-1])))
             os.makedirs(d, exist_ok=True)
@@ -1272,7 +1387,11 @@ def exec_case(slot, c):
             chattr("-i", p)
     if special in ("clean-stuck", "init-immutable", "compile-immutable") and not locked:
         note["not_exercised"] = "chattr +i failed"
-    if special in ("history", "nested"):
+    if special == "platforms":
+        outp = os.path.normpath(os.path.join(slot.dir, c["args"][-1]))
+        d, base = os.path.dirname(outp), os.path.basename(outp)
+        note["outputs"] = {f: file_platform(os.path.join(d, f)) for f in sorted(os.listdir(d)) if f.startswith(base)}
+    if special in ("history", "nested", "platforms"):
         # what the go tool answered, as mage reports it (every one of them means "cannot be built")
         cls = projlib.stderr_class(err)
         flag = {"list-error": "list_err", "parse-error": "parse_err", "compile-error": "compile_err", "no-magefiles": "nofiles", "dupe": "parse_err"}.get(cls)
@@ -1303,7 +1422,9 @@ def judge(c, ob):
     bad = []
     if w is None:
         return bad
-    if w["exit"] == "nonzero":
+    if w["exit"] is None:
+        pass
+    elif w["exit"] == "nonzero":
         if ob["rc"] == 0:
             bad.append(("exit-status", "exit status 0 although the command failed"))
     elif ob["rc"] != w["exit"]:
@@ -1315,7 +1436,16 @@ def judge(c, ob):
         bad.append(("body-started-twice", "bodies started more than once in one invocation: %s (CALL lines: %s)" % (dup, ob["started"])))
     if w.get("ran") is not None and ob["ran"] != w["ran"]:
         bad.append(("targets-run", "%d requested targets started (%s), expected %d" % (ob["ran"], ob["started"], w["ran"])))
-    if w["exit"] != 0 and w.get("tokens") is not None:
+    if w.get("platforms") is not None:
+        outs = ob["note"].get("outputs") or {}
+        have = set(v for v in outs.values() if v)
+        if ob["rc"] == 0:
+            missing = [pl for pl in w["platforms"] if pl not in have]
+            if missing:
+                bad.append(("compile-platforms", "-compile exited 0 but there is no executable for %s (the command line names %s; written: %s)" % (missing, w["platforms"], outs)))
+        if ob["rc"] == 0 and re.search(r"unsupported GOOS/GOARCH|undefined: |error compiling magefiles|^Error:", ob["stderr"], re.M):
+            bad.append(("exit-status", "a build failure is reported on stderr and the exit status is 0"))
+    if (w["exit"] != 0 if w["exit"] is not None else ob["rc"] != 0) and w.get("tokens") is not None:
         missing = [t for t in w["tokens"] if t not in ob["stderr"]]
         if not ob["msg"]:
             bad.append(("message-on-stderr", "exit status %d and nothing on stderr" % ob["rc"]))
